@@ -525,7 +525,7 @@ func (j *C16Job) Run(deadline time.Time) *runner.JobResult {
 			res.HarnessErr = err.Error()
 			return res
 		}
-		limit := 6
+		limit := 3
 		if j.Tier == "thorough" {
 			limit = 40
 		}
